@@ -100,11 +100,29 @@ class Condition(Notification):
 
 class Connective(Condition):
     """Logical connection of sub-conditions"""
-    __slots__ = ('_children',)
+    __slots__ = ('_children', '_watched')
 
     def __init__(self, *conditions: Condition):
         super().__init__()
         self._children = conditions
+        # whether an activity is waiting to trigger our subscribers
+        self._watched = False
+
+    def __subscribe__(self, waiter: Coroutine, interrupt: CoreInterrupt):
+        super().__subscribe__(waiter, interrupt)
+        # Nothing triggers a connective by itself: the children only notify
+        # their own subscribers. Keep one activity waiting on the children
+        # which triggers our subscribers once the connective holds.
+        if not self._watched and self._waiting:
+            self._watched = True
+            __USIM_STATE__.loop.schedule(self.__watch_children__())
+
+    async def __watch_children__(self):
+        try:
+            await self.__await_children__()
+            self.__trigger__()
+        finally:
+            self._watched = False
 
     def __await__(self) -> Generator[AnyT, None, bool]:
         return (yield from self.__await_children__().__await__())  # noqa: B901
